@@ -14,7 +14,8 @@ Extracted (fail closed on anything else):
     a name unpacked from `targets_4d.shape` ...), the size of the simulated frame (`processor.detector.geometry.row`,
     `len(readout.times)` ...), or nothing -> Model.Fitness.calls;
   * same file: in which branch(es) `self._configure_weights(weights=weights, weights_from_file=weights_from_file)` is
-    called, and the `shape=` of the `np.full(...)` that expands a scalar weight in `fitness` -> Model.Fitness.wconf.
+    called, the `shape=` of the `np.full(...)` that expands a scalar weight in `fitness`, and whether target data and
+    weights are restricted through `_target_indexers` (time component under 'readout_time') -> Model.Fitness.wconf.
 """
 from __future__ import annotations
 
@@ -479,10 +480,61 @@ def _weights_conf(tree) -> str:
     else:
         fail(shape, "unsupported shape of the scalar weighting array")
     b = {True: "true", False: "false"}
-    return f"{{| wc_single := {b[single]}; wc_multi := {b[multi]}; wc_shape := {sh} |}}"
+    return (f"{{| wc_single := {b[single]}; wc_multi := {b[multi]}; wc_shape := {sh}; "
+            f"wc_time_key := {b[_time_key(tree)]} |}}")
 
 
-WCONF = "{| wc_single := true; wc_multi := true; wc_shape := ShTarget |}"
+def _time_key(tree) -> bool:
+    """Are the target data and the weights read from file restricted with the target range's time component under
+    their own dimension name 'readout_time'?  `X.isel(indexers=<range>.to_dict())` -> False;
+    `X.isel(indexers=_target_indexers(<range>))` with `_target_indexers` renaming 'time' to 'readout_time' -> True."""
+    def indexer_kind(call, rng_src):
+        kw = {k.arg: k.value for k in call.keywords}
+        if call.args or set(kw) != {"indexers"}:
+            fail(call, "isel(indexers=...) expected")
+        src = ast.unparse(kw["indexers"])
+        if src == f"{rng_src}.to_dict()":
+            return False
+        if src == f"_target_indexers({rng_src})":
+            return True
+        fail(call, "unsupported indexers of the target data / weights")
+
+    fi = next((n for n in tree.body if isinstance(n, ast.FunctionDef) and n.name == "_target_indexers"), None)
+    if fi is not None:
+        body = body_no_doc(fi)
+        arg = fi.args.args[0].arg if len(fi.args.args) == 1 else None
+        ok = (arg is not None and len(body) == 3
+              and isinstance(body[0], (ast.Assign, ast.AnnAssign)) and ast.unparse(body[0].value) == f"dict({arg}.to_dict())"
+              and isinstance(body[1], ast.If) and not body[1].orelse and len(body[1].body) == 1
+              and isinstance(body[2], ast.Return) and body[2].value is not None)
+        if ok:
+            name = ast.unparse(body[0].target if isinstance(body[0], ast.AnnAssign) else body[0].targets[0])
+            ok = (ast.unparse(body[1].test) == f"'time' in {name}"
+                  and ast.unparse(body[1].body[0]) == f"{name}['readout_time'] = {name}.pop('time')"
+                  and ast.unparse(body[2].value) == name)
+        if not ok:
+            fail(fi, "_target_indexers must copy <range>.to_dict() and rename the key 'time' to 'readout_time'")
+    init = find_func(tree, "__init__", cls="ModelFittingDataTree")
+    tsel = [n.value for n in ast.walk(init) if isinstance(n, ast.Assign) and len(n.targets) == 1
+            and ast.unparse(n.targets[0]) == "self.all_target_data" and isinstance(n.value, ast.Call)
+            and ast.unparse(n.value.func) == "targets.isel"]
+    if len(tsel) != 1:
+        fail(init, "expected one `self.all_target_data = targets.isel(indexers=...)`")
+    cw = find_func(tree, "_configure_weights", cls="ModelFittingDataTree")
+    wsel = [n.value for n in ast.walk(cw) if isinstance(n, ast.Assign) and len(n.targets) == 1
+            and ast.unparse(n.targets[0]) == "self.weighting_from_file" and isinstance(n.value, ast.Call)
+            and ast.unparse(n.value.func) == "weights_data_array.isel"]
+    if len(wsel) != 1:
+        fail(cw, "expected one `self.weighting_from_file = weights_data_array.isel(indexers=...)`")
+    kt, kw_ = indexer_kind(tsel[0], "target_fit_range"), indexer_kind(wsel[0], "self.targ_fit_range")
+    if (kt or kw_) and fi is None:
+        fail(init, "_target_indexers is not defined")
+    if kt != kw_:
+        fail(cw, "target data and weights are indexed differently")
+    return kt
+
+
+WCONF = "{| wc_single := true; wc_multi := true; wc_shape := ShTarget; wc_time_key := true |}"
 
 
 def render(out_guards, c2, c3, single=None, multi=None, target_first=True, wconf=None) -> str:
